@@ -9,7 +9,7 @@ def abs (S : Sys) (s : State) : Path → Option (List Chunk) :=
 /-- the atomic specification of a Put -/
 def specPut (S : Sys) (m : Path → Option (List Chunk)) (r : Req) : (Path → Option (List Chunk)) :=
   if (m r.dst).map S.H = r.expected then upd m r.dst (some r.chunks)
-  else upd m (S.cname r.dst r.declared) (some r.chunks)
+  else upd m (S.cname m r.dst r.declared) (some r.chunks)
 
 /-- the atomic specification of a Delete -/
 def specDel (S : Sys) (m : Path → Option (List Chunk)) (r : Req) : (Path → Option (List Chunk)) :=
@@ -75,14 +75,14 @@ theorem commit_refines {S init s} (wf : WF S) (inv : Inv S init s) (linv : LInv 
 
 theorem conflict_refines {S init s} (wf : WF S) (inv : Inv S init s) (linv : LInv S s) {i fd cur}
     (h : s.pc i = .decided fd cur) (hc : cur ≠ (S.req i).expected) :
-    abs S { s with dir := upd (upd s.dir (S.cname (S.req i).dst (S.req i).declared)
+    abs S { s with dir := upd (upd s.dir (S.cname (view S s) (S.req i).dst (S.req i).declared)
                                     (s.dir (S.tmpOf i (S.req i).dst)))
                                 (S.tmpOf i (S.req i).dst) none,
                    pc := upd s.pc i .renamed } = specPut S (abs S s) (S.req i) := by
   have hown := inv.own i fd (by rw [h]; rfl)
   have hfull := inv.full i fd (by rw [h]; rfl)
   have hdst := wf.dst_ns i
-  have hcn := wf.cname_ns _ (S.req i).declared hdst
+  have hcn := wf.cname_ns (view S s) _ (S.req i).declared hdst
   have hts := wf.tmp_staging i (S.req i).dst
   have hcur := linv.cur i fd cur h
   have hexp : ¬ ((abs S s) (S.req i).dst).map S.H = (S.req i).expected := by
@@ -90,15 +90,15 @@ theorem conflict_refines {S init s} (wf : WF S) (inv : Inv S init s) (linv : LIn
     intro e; apply hc; rw [hcur, ← e]
     cases s.dir (S.req i).dst <;> simp
   have hsp : specPut S (abs S s) (S.req i)
-      = upd (abs S s) (S.cname (S.req i).dst (S.req i).declared) (some (S.req i).chunks) := by
-    unfold specPut; rw [if_neg hexp]
+      = upd (abs S s) (S.cname (view S s) (S.req i).dst (S.req i).declared) (some (S.req i).chunks) := by
+    unfold specPut; rw [if_neg hexp]; rfl
   rw [hsp]
-  have hne : S.cname (S.req i).dst (S.req i).declared ≠ S.tmpOf i (S.req i).dst := by
+  have hne : S.cname (view S s) (S.req i).dst (S.req i).declared ≠ S.tmpOf i (S.req i).dst := by
     intro e; rw [← e, hcn] at hts; cases hts
   funext p
   by_cases e1 : p = S.tmpOf i (S.req i).dst
   · subst e1; simp [abs, upd, hts, Ne.symm hne]
-  · by_cases e2 : p = S.cname (S.req i).dst (S.req i).declared
+  · by_cases e2 : p = S.cname (view S s) (S.req i).dst (S.req i).declared
     · subst e2; simp [abs, upd, hcn, e1, hown, hfull.1]
     · simp [abs, upd, e1, e2]
 
